@@ -175,6 +175,53 @@ func TestVfWiring(t *testing.T) {
 		cli.Close()
 		ncase++
 
+		// (a2) the same listener under back-to-back datagrams from several sources (distinct addresses and ports):
+		// each request must carry the source of ITS datagram, whatever else the receive goroutine has read meanwhile
+		w.reset(fmt.Sprintf("wiring%d-udp-burst-%v", ci, recv), recv, udp, tcp)
+		const nsrc = 8
+		var clis [nsrc]*net.UDPConn
+		for k := range clis {
+			c, err := net.ListenUDP("udp", &net.UDPAddr{IP: net.ParseIP(g.ip(fmt.Sprintf("10.0.5.%d", 10+k%4))), Port: 0})
+			if err != nil {
+				t.Fatalf("VF-INFRA %v", err)
+			}
+			clis[k] = c
+		}
+		lost := 0
+		for round := 0; round < 12; round++ {
+			vfAllSinks.pollAll()
+			var raws [nsrc][]byte
+			for k, c := range clis {
+				raws[k] = w.request("sip:alice@svc.example.com", "", "UDP", announce, rports[(round+k)%len(rports)], 1000+round*nsrc+k)
+				c.WriteToUDP(raws[k], &net.UDPAddr{IP: net.ParseIP(la), Port: udp})
+			}
+			var got []vfRecv
+			for end := time.Now().Add(2 * time.Second); len(got) < nsrc && time.Now().Before(end); time.Sleep(time.Millisecond) {
+				got = append(got, vfAllSinks.pollAll()...)
+			}
+			for k, c := range clis {
+				var mine []vfRecv
+				for _, rv := range got {
+					if strings.Contains(string(rv.raw), fmt.Sprintf("wiring-%s-%d\r\n", w.id, 1000+round*nsrc+k)) {
+						mine = append(mine, rv)
+					}
+				}
+				if len(mine) == 0 { // a datagram the kernel dropped is not this property's subject
+					lost++
+					continue
+				}
+				a := c.LocalAddr().(*net.UDPAddr)
+				w.emit("udp-burst"+rports[(round+k)%len(rports)], "p1.t1", a.IP.String(), a.Port, raws[k], mine)
+			}
+		}
+		for _, c := range clis {
+			c.Close()
+		}
+		if lost > 12*nsrc/2 {
+			t.Fatalf("VF-INFRA %d of %d burst requests were not relayed", lost, 12*nsrc)
+		}
+		ncase++
+
 		// (b) the reader of an accepted TCP connection
 		w.reset(fmt.Sprintf("wiring%d-tcp-accepted-%v", ci, recv), recv, udp, tcp)
 		d := net.Dialer{LocalAddr: &net.TCPAddr{IP: net.ParseIP(g.ip("10.0.5.5"))}, Timeout: 2 * time.Second}
